@@ -113,8 +113,20 @@ def check(ctx, src):
     ctx.decide("ISOLATION", f"{HR}|try_parse_one_form|installed per form", _installed(tpf), "handler code of a form must run inside `with self.as_current_reader()` entered for that form", HR, tpf.lineno,
                witness="a reader left installed by a suspended read_many generator receives the reader macros of the next module", detail="with self.as_current_reader() around the dispatch")
     cr = hr.func("HyReader.current_reader")
-    ctx.check(cr is not None and norm(cr.body[-1]) == "return override or HyReader._current_reader or (cls() if create else None)", "ISOLATION", f"{HR}|current_reader|priority", "an explicit reader must take priority over the ambient one", HR, cr.lineno if cr else 0,
-              witness="a module imported while another stream is being compiled registers its reader macros in the importer's reader", detail="override or _current_reader or new")
+    # priority: every value current_reader can return - in the order they are tried - is the explicit reader, then the
+    # ambient one, then a new one
+    order_ = []
+    if cr is not None:
+        for n in ast.walk(cr):
+            if isinstance(n, ast.BoolOp) and isinstance(n.op, ast.Or):
+                order_ += [str(norm(v)) for v in n.values if str(norm(v)) in ("override", "HyReader._current_reader", "cls._current_reader")]
+        pr = None
+        if order_[:2] and order_[0] == "override" and order_[1].endswith("_current_reader"):
+            pr = True
+        elif len(order_) >= 2 and order_[0].endswith("_current_reader") and "override" in order_:
+            pr = False
+    ctx.decide("ISOLATION", f"{HR}|current_reader|priority", pr if cr is not None else None, f"an explicit reader must take priority over the ambient one (tried in the order {order_})", HR, cr.lineno if cr else 0,
+               witness="a module imported while another stream is being compiled registers its reader macros in the importer's reader", detail="override or _current_reader or new")
     ur = hr.func("HyReader.using_reader")
     ctx.check(ur is not None and "reader = cls.current_reader(override, create)" in [norm(s) for s in ur.body] and "with reader.as_current_reader() if reader else nullcontext(): yield" in [norm(s) for s in ur.body], "ISOLATION", f"{HR}|using_reader", "using_reader must install the chosen reader for the duration of the block", HR, 0, detail="with reader.as_current_reader()")
     w = pyq.contains(hc, lambda n: isinstance(n, ast.With) and "HyReader.using_reader(reader, create=False)" in norm(n.items[0].context_expr))
